@@ -63,7 +63,7 @@ def storesOk (md : ModelDef) (st : Stores) : Prop :=
     that are not yet listed, in order, once each — `LoadIncrementalFilteredPolicy` adds the matching
     rules to those already loaded -/
 theorem loadEntries_adds (md : ModelDef) (st : Stores) (es : List (String × Rule))
-    (hst : storesOk md st) (hes : es.all (entryOk md) = true) :
+    (hst : storesOk md st) (hdis : ∀ pt, pt ∈ md.p.map (·.1) → pt ∉ md.g.map (·.1)) (hes : es.all (entryOk md) = true) :
     ∃ st', loadEntries md st es = some st' ∧ storesOk md st' ∧
       ∀ pt, rulesOf st' pt = ((es.filter (·.1 == pt)).map (·.2)).foldl SpecStore.addOne (rulesOf st pt) := by
   sorry
